@@ -663,7 +663,7 @@ def run(ctx):
                 eff = []
                 t = mirsum.summary(pr, bb, depth=1, args=[("cap", "strings")], effects=eff)
                 got = mirsum.fmt(t) if t is not None else "a branching computation"
-                if got == "Result::unwrap(TryInto::try_into(Vec::into_boxed_slice(strings)))" and not eff:
+                if re.match(r"^Result::unwrap\((TryInto::try_into|(\w+)?::try_from)\(Vec::into_boxed_slice\(strings\)\)\)$", got) and not eff:
                     r9.inst("StringArray::cast [cfg %s]" % cfgname, "the whole list converted with TryInto (fails unless the length is SIZE), the list untouched before")
                 else:
                     r9.viol("R9:StringArray::cast", "the fetched list becomes `%s` after %s; expected the untouched list converted with TryInto::try_into(..).unwrap()" % (got, [mirsum.fmt(e) for e in eff] or "no other call"), file=bb.file, line=bb.line)
